@@ -225,7 +225,7 @@ func pathNotes(p Path) string {
 // of a request line (no line feed yet) asks for more, a complete request line is recognised with LF and with CR LF
 // endings, a complete first line that is not a request line is refused - and never before the line is complete.
 func c06IsHTTP(c *Ctx, r *Report, rule string) {
-	r.rule(rule, "http request line (evaluation of isHttp on byte strings): every prefix of a request line that has no line feed yet asks for more data (never a definite no), complete request lines with LF and CR LF endings match, complete other first lines do not", 20)
+	r.rule(rule, "http request line (evaluation of isHttp on byte strings): every prefix of a request line that has no line feed yet asks for more data (never a definite no), complete request lines with LF and CR LF endings match, complete other first lines - also those shorter than any request line - do not", 20)
 	fnName := "modules/l4http.(MatchHTTP).isHttp"
 	fn := c.Fn(fnName)
 	if fn == nil {
@@ -254,6 +254,12 @@ func c06IsHTTP(c *Ctx, r *Report, rule string) {
 		tc{"lower-case protocol", "GET /foo/bar http/1.1\r\n", "no"},
 		tc{"protocol without its space", "GET /foo/barXHTTP/1.1\r\n", "no"},
 		tc{"8 KiB without a line feed", strings.Repeat("a", 8192), "more"},
+		// a first line that has ended is decided, however short it is: no later byte makes it a request line
+		tc{"a line of 4 letters", "PING\n", "no"},
+		tc{"a line of 6 letters, CR LF", "EHLO x\r\n", "no"},
+		tc{"an empty line", "\n", "no"},
+		tc{"a line of 9 bytes", "GET / HTT\n", "no"},
+		tc{"a short line and more behind it", "QUIT\r\nGET / HTTP/1.1\r\n", "no"},
 	)
 	for _, cs := range cases {
 		base := msgScenario(c, msgMatcher{fn: fnName}, msgCase{})
